@@ -1,6 +1,6 @@
 (* C11 tie: the observations of the compiled library (Tables/RobustCasesGen.v, regenerated on
    every run by `verif-harness robust models`) are compared with the models of
-   Ms/RobustModel.v INSIDE Coq.  The value printed must be five empty lists; otherwise each
+   Ms/RobustModel.v INSIDE Coq.  The value printed must be six empty lists; otherwise each
    list holds the differing rows (input, implementation's observation, model's value), which
    is also the diagnosis. *)
 From Coq Require Import List NArith ZArith Bool.
@@ -72,7 +72,10 @@ Definition lex_obs (b : list N) : N * N :=
 Definition lex_bad := map (fun row => (row, lex_obs (fst row)))
   (filter (fun row => let '(b, (k, v)) := row in let '(k', v') := lex_obs b in negb ((k =? k') && (v =? v'))) lex_rows).
 
-Definition robust_counts := (length thr_rows, length thr_or_and_rows, length thr_orn_rows, length plan_rows, length lex_rows).
+(* ---- tree_height per constructor ---- *)
+Definition height_bad := filter (fun row => let '(tag, kids, h) := row in negb (tree_height_model kids =? h)) height_rows.
+
+Definition robust_counts := (length thr_rows, length thr_or_and_rows, length thr_orn_rows, length plan_rows, length lex_rows, length height_rows).
 Eval vm_compute in robust_counts.
-Definition robust_mismatches := (thr_bad, thr_or_and_bad, thr_orn_bad, plan_bad, lex_bad).
+Definition robust_mismatches := (thr_bad, thr_or_and_bad, thr_orn_bad, plan_bad, lex_bad, height_bad).
 Eval vm_compute in robust_mismatches.
